@@ -18,11 +18,10 @@ META = dict(
     text="TLC enumerates every case of the frozen-address check (Frozen.tla: list contents and order, owners of every input "
          "and output position, height around each start height, coinbase) checking 'an entry in force that the "
          "transaction touches => rejected' and its converse; every case is run on the real checkFrozenAddresses with three "
-         "address sets and three height bases; NetConfig.tla enumerates ActiveNet names x local overrides, each loaded by "
+         "address sets and three height bases and, as a signed transfer, through the node's CheckTransactionContext; NetConfig.tla enumerates ActiveNet names x local overrides, each loaded by "
          "the real Settings.SetupConfig and the resulting list (with resolved program hashes) compared.",
     note="Bounded: lists of <= 2 entries over 2 addresses, <= 2 inputs and outputs over 3 owners (quick: lists <= 1 with <= 2 "
-         "inputs/outputs and lists <= 2 with <= 1); the "
-         "call site in DefaultChecker.ContextCheck is not exercised end to end.",
+         "inputs/outputs and lists <= 2 with <= 1); end to end with TransferAsset transactions only.",
     technique="TLA+ pipeline model (TLC complete enumeration) + per-case conformance run on the real frozen-address helper "
               "and the real configuration loader",
 )
@@ -54,6 +53,8 @@ def run(chk):
         if pol:
             recs, _ = vf.run_driver(binary, ["check", ec.write_cases("replay-check.jsonl", pol), "alltypes"])
             ec.absorb(chk, recs, "replay check")
+            recs, _ = vf.run_driver(binary, ["e2e", ec.write_cases("replay-check.jsonl", pol)])
+            ec.absorb(chk, recs, "replay check end to end")
         if con:
             recs, _ = vf.run_driver(binary, ["config", ec.write_cases("replay-config.jsonl", con)])
             ec.absorb(chk, recs, "replay config")
@@ -80,12 +81,20 @@ def run(chk):
         chk.cov.setdefault("extraction", []).append(st)
         recs, _ = vf.run_driver(binary, ["check", ec.write_cases("check%d%d.jsonl" % (maxlist, maxio), cs), "alltypes"])
         ec.absorb(chk, recs, "cases on checkFrozenAddresses (lists <= %d, io <= %d)" % (maxlist, maxio))
+        recs, _ = vf.run_driver(binary, ["e2e", ec.write_cases("check%d%d.jsonl" % (maxlist, maxio), cs)])
+        ec.absorb(chk, recs, "signed transfers end to end on BlockChain.CheckTransactionContext (lists <= %d, io <= %d)" % (maxlist, maxio))
         cases += cs
 
     bad = json.loads(json.dumps(next(c for c in cases if c["exp"] == "accept" and c["args"]["list"] and c["args"]["outs"])))
     bad["exp"], bad["why"] = "reject", "receives"
     recs, _ = vf.run_driver(binary, ["check", ec.write_cases("check-bad.jsonl", [bad])])
-    chk.selftest("check: expected verdict of one accepted case flipped to reject", ec.has_violation(recs))
+    ec.selftest(chk, "check: expected verdict of one accepted case flipped to reject", recs)
+
+    bad = json.loads(json.dumps(next(c for c in cases if c["exp"] == "accept" and c["args"]["list"] and c["args"]["ins"]
+                                     and c["args"]["outs"] and not c["args"]["cb"])))
+    bad["exp"], bad["why"] = "reject", "spends"
+    recs, _ = vf.run_driver(binary, ["e2e", ec.write_cases("e2e-bad.jsonl", [bad])])
+    ec.selftest(chk, "e2e: an accepted transfer declared 'reject'", recs)
 
     ccases = ec.netconfig_cases(chk)
     recs, _ = vf.run_driver(binary, ["config", ec.write_cases("config.jsonl", ccases)])
@@ -93,7 +102,7 @@ def run(chk):
     bad = json.loads(json.dumps(next(c for c in ccases if c["args"]["name"] == "mainnet" and c["args"]["ovFrozen"] == "otherAddr")))
     bad["exp"]["frozen"] = "otherAddr"
     recs, _ = vf.run_driver(binary, ["config", ec.write_cases("config-bad.jsonl", [bad])])
-    chk.selftest("config: expected mainnet list replaced by the local one", ec.has_violation(recs))
+    ec.selftest(chk, "config: expected mainnet list replaced by the local one", recs)
 
     chk.assumptions += [
         "bounds: 2 freezable addresses + 1 free, start heights {1,2}, heights 0..3, <= 2 inputs and <= 2 outputs; each case is run "
@@ -103,7 +112,8 @@ def run(chk):
         "coinbase transactions have their own ContextCheck that never reaches the helper; the spec leaves them unconstrained, "
         "as the property does",
         "a node is 'on mainnet' when SetupConfig selected the mainnet parameter set (the driver checks the resulting magic)",
-        "the helper is driven through its verif export; that ContextCheck calls it for every non-coinbase transaction is read "
-        "from the code, not exercised",
+        "every case runs on the helper through its verif export (rotating over all instantiable transaction types); every "
+        "non-coinbase case with at least one input additionally runs end to end as a signed TransferAsset between three funded "
+        "keys through BlockChain.CheckTransactionContext on a regnet node (the accepted cases show the transfers are otherwise valid)",
     ]
     return chk.finish(exhaustive=True)
